@@ -126,6 +126,8 @@ def generate(ctx):
         xs = [k / 4.0 for k in range(k0, k0 + 25)]
         if rng.random() < 0.5:
             xs = [float(int(x)) for x in xs[::2]] + xs
+        if rng.random() < 0.5:
+            xs = xs + [t, -t, 2 * t, -2 * t, 0.0, -0.0, t / 2, 1.0 + t, -1.0 - t]  # exactly ON the branch boundaries x = +-t, 0
         yield "lat", dict(t=t, xs=xs + xs[::-1])
     # in-situ: TM games under the attached contracts
     ng = ctx.budget(1500, 80000)
